@@ -123,7 +123,7 @@ def reachList (cs : List Cell) : Nat → List HVal → List Loc → List Loc
 /-! ### reading a value back as a pure object -/
 
 def isLeafObj : Obj → Bool
-  | .coll _ _ | .dict _ | .inst _ _ | .opaque _ => false
+  | .coll _ _ | .dict _ | .mdict _ _ | .inst _ _ | .opaque _ => false
   | _ => true
 
 mutual
